@@ -3,3 +3,5 @@ import SkModel.Basic
 import SkModel.Task
 import SkModel.Result
 import SkModel.Spec.Simple
+import SkModel.Spec.Sequence
+import SkModel.Proofs.Solo
